@@ -773,7 +773,7 @@ def _keyed_cases(tier):
 def _deep_cases(draw, tier="quick"):
     """One contract (plus a bystander) receiving tens of thousands of quotes: nothing about the statement depends on how
     long a history already is. Prices follow a deterministic sawtooth derived from the case, with repeats."""
-    return {"n": draw(st.sampled_from([20000, 33000, 40000, 70000])), "period": draw(st.integers(2, 97)),
+    return {"n": draw(st.sampled_from([20000, 33000, 40000, 70000])) + draw(st.integers(0, 999)), "period": draw(st.integers(2, 97)),
             "repeat_every": draw(st.sampled_from([0, 3, 10])), "spread": draw(st.sampled_from([0.0, 0.25, 1.0])),
             "probe": draw(st.lists(st.integers(0, 10 ** 6), min_size=3, max_size=8)), "kind": draw(st.sampled_from(["etf", "es"]))}
 
@@ -815,7 +815,7 @@ def _deep(case):
     if len(ex[other].history["time"]) != 1 or ex[other].bid_price != 7.0:
         res.fail("a contract that received one quote shows %d records / bid %r" % (len(ex[other].history["time"]), ex[other].bid_price))
     res.nontrivial = n > 32768
-    res.tag("deep:%d-quotes" % n)
+    res.tag("deep:%d-thousand-quotes" % (n // 1000))
     if rep:
         res.tag("identical-consecutive-quotes")
     return res
